@@ -47,7 +47,26 @@ def check(run):
     # every file also through readers that hand out a few bytes per read() call (read_zkey is generic in `Read + Seek`)
     chunked = [[f"zkey_chunk {hex(rng.choice([1, 2, 3, 5, 7, 31, 33, 100]))} {l.split(' ')[1]}"] for l in zl[::2]]
     files = [[f"zkeyfile {bundled}"], [f"zkeyfile_buf {bundled}"], [f"zkeyfile_chunk 0x2000 {bundled}"], [f"zkeyfile_chunk {hex(rng.choice([1000, 4096, 65536, 1 << 20]))} {bundled}"]]
-    st = run.differential("zkey-reader", files + [[l] for l in zl] + chunked, shrink=False)
+    # HOW a malformed file is refused (error value or panic) is not part of C17 and a hardening change may turn one into the other:
+    # the two kinds of refusal are compared as one class (the difference is counted in the evidence, never an alarm); a file the
+    # model reads must be read with the same digest, and a file the model refuses must be refused
+    zall = files + [[l] for l in zl] + chunked
+    zmodel = dict(zip([q[0] for q in zall], core.run_lean("model", [q[0] for q in zall])))
+    kinds_differ = [0]
+    def zcanon(line, x):
+        m = zmodel.get(line)
+        if x in ("err", "panic") and m in ("err", "panic"):
+            if x != m:
+                kinds_differ[0] += 1
+            return m
+        # header numbers that make `max_constraint_index - n_public` / `n_vars - n_public` wrap: the model gives what the release
+        # profile computes; refusing such a file instead (checked arithmetic) is just as good for C17
+        if x in ("err", "panic") and m and m.startswith("ok ") and any(int(f.split("=")[1]) >= 1 << 63 for f in m.split(" ")[1:4]):
+            kinds_differ[0] += 1
+            return m
+        return x
+    st = run.differential("zkey-reader", zall, shrink=False, canon=zcanon)
+    run.cov["zkey_reader_refusal_kind_differs_from_model"] = kinds_differ[0]
     run.cov["zkey_reader_kinds"] = zkinds
     loaded = core.run_impl(zkh, ["zkey_loaded"], ("run",))[0]
     from_file = core.run_lean("model", [f"zkeyfile {bundled}"])[0]
